@@ -73,7 +73,8 @@ fn p_ev(t: &str, kind: Kind) -> R<Ev> {
     };
     let allowed = match ev {
         Ev::Xs(_) | Ev::Xc(_) | Ev::Iu(_) | Ev::Upd => true,
-        Ev::Ws(_) | Ev::Wc(_) | Ev::Acc(_) | Ev::Dis => kind != Kind::Enc,
+        Ev::Ws(_) | Ev::Wc(_) | Ev::Acc(_) => kind != Kind::Enc,
+        Ev::Dis => true,
         Ev::Gs(_) => kind == Kind::Enc,
         Ev::Lr => kind == Kind::Pid,
         // (the PID wrapper's line compares with a stand-alone PID fed from outside, which cannot see what a follower will deliver)
